@@ -2,6 +2,7 @@
 # vp run --with-repo -- tools/try_own.sh <seed-id>... : each seed against the check of its own property (+ extra props in $EXTRA)
 R=${VP_RUN_REPO:?need --with-repo}
 HERE=$(pwd)
+export PYVC_CACHE_DIR=${PYVC_CACHE_DIR:-/verif/.cache}     # content-keyed, so sharing it between snapshots is safe
 for ID in "$@"; do
   P=${ID%%-*}
   cd $R; git checkout -q -- . 2>/dev/null; git reset -q --hard
